@@ -108,7 +108,7 @@ Definition batch_insert_into (c : cstate) (rs : list (Z * list opd)) : cstate * 
   finish_batch c (batch_insert_into_loop (moms c) rs).
 
 (* ---- batch_insert: stable sort by index, group equal indices, insert each group (reversed)
-        with EARLIEST into the copy, shifting later indices ---- *)
+        with EARLIEST into the copy, shifting later indices by the number of moments created ---- *)
 Fixpoint sorted_insert (x : Z * list item) (l : list (Z * list item)) : list (Z * list item) :=
   match l with
   | [] => [x]
@@ -132,8 +132,9 @@ Fixpoint batch_insert_loop (c : cstate) (shift : Z) (gs : list (Z * list (list i
   | (i, group) :: r =>
       let insert_index := i + shift in
       match insert c insert_index (concat (rev group)) EARLIEST with
-      | (c', inl next_index) =>
-          batch_insert_loop c' (if insert_index <? next_index then shift + (next_index - insert_index) else shift) r
+      | (c', inl _) =>
+          (* shift += len(copy) - moments_before *)
+          batch_insert_loop c' (shift + (Z.of_nat (length (moms c')) - Z.of_nat (length (moms c)))) r
       | (_, inr e) => inr e
       end
   end.
